@@ -679,6 +679,19 @@ func (w *Wallet) ReceiveHTLC(token cashu.Token, preimage string) (uint64, error)
 	return 0, errors.New("ecash does not have an HTLC spending condition")
 }
 
+// withoutDLEQ returns copies of the proofs without their DLEQ proof. The DLEQ proof
+// kept with a proof includes the blinding factor r, which is only meant for the
+// recipient of a token: a mint that is handed r can link the proof being spent
+// to the blind signature it issued.
+func withoutDLEQ(proofs cashu.Proofs) cashu.Proofs {
+	inputs := make(cashu.Proofs, len(proofs))
+	for i, proof := range proofs {
+		proof.DLEQ = nil
+		inputs[i] = proof
+	}
+	return inputs
+}
+
 type swapRequestPayload struct {
 	inputs  cashu.Proofs
 	outputs cashu.BlindedMessages
@@ -709,7 +722,7 @@ func (w *Wallet) createSwapRequest(proofs cashu.Proofs, mint *walletMint) (swapR
 
 func swap(mint string, swapRequest swapRequestPayload) (cashu.Proofs, error) {
 	request := nut03.PostSwapRequest{
-		Inputs:  swapRequest.inputs,
+		Inputs:  withoutDLEQ(swapRequest.inputs),
 		Outputs: swapRequest.outputs,
 	}
 	swapResponse, err := client.PostSwap(mint, request)
@@ -926,7 +939,7 @@ func (w *Wallet) Melt(quoteId string) (*nut05.PostMeltQuoteBolt11Response, error
 
 	meltBolt11Request := nut05.PostMeltBolt11Request{
 		Quote:   quote.QuoteId,
-		Inputs:  proofs,
+		Inputs:  withoutDLEQ(proofs),
 		Outputs: outputs,
 	}
 	meltBolt11Response, err := client.PostMeltBolt11(mint.mintURL, meltBolt11Request)
@@ -1191,7 +1204,7 @@ func (w *Wallet) swapProofs(proofs cashu.Proofs, from, to *walletMint) (uint64, 
 	}
 
 	// request from mint to pay invoice from the mint quote request
-	meltBolt11Request := nut05.PostMeltBolt11Request{Quote: meltQuoteResponse.Quote, Inputs: proofs}
+	meltBolt11Request := nut05.PostMeltBolt11Request{Quote: meltQuoteResponse.Quote, Inputs: withoutDLEQ(proofs)}
 	meltBolt11Response, err := client.PostMeltBolt11(from.mintURL, meltBolt11Request)
 	if err != nil {
 		return 0, fmt.Errorf("error melting token: %v", err)
@@ -1429,7 +1442,7 @@ func (w *Wallet) swapToSend(
 	cashu.SortBlindedMessages(blindedMessages, secrets, rs)
 
 	// call swap endpoint
-	swapRequest := nut03.PostSwapRequest{Inputs: proofsToSwap, Outputs: blindedMessages}
+	swapRequest := nut03.PostSwapRequest{Inputs: withoutDLEQ(proofsToSwap), Outputs: blindedMessages}
 	swapResponse, err := client.PostSwap(mint.mintURL, swapRequest)
 	if err != nil {
 		return nil, err
